@@ -93,7 +93,8 @@ def generate(ctx):
                 b = ('d', gen.float_to_bits(float(x)))
             elif not (gen.f_is_nan(x) or gen.f_is_inf(x)):
                 f = gen.bits_to_float(x)
-                if abs(f) < 2 ** 64 and f == int(f):
+                if abs(f) < 2 ** 64:
+                    # the integers around it: for a fraction its truncation, floor and ceiling
                     z = int(f) + r.choice([-1, 0, 0, 1])
                     b = ('i', z) if gen.I64_MIN <= z <= gen.I64_MAX else (('u', z) if 0 <= z <= gen.U64_MAX else b)
         ctx.add('num_cmp %s %s' % (ntext(a), ntext(b)), meta=('cmp', a, b))
